@@ -1,20 +1,20 @@
-#!/venv/bin/python
-"""Run one correspondence unit outside a check:  tools_run_unit.py <unit> [quick|thorough]"""
-import importlib, json, os, sys
-if os.environ.get('PYTHONHASHSEED') != '0':
-    os.environ['PYTHONHASHSEED'] = '0'
-    os.environ['PYTHONPATH'] = '/repo'
-    os.environ['PYTHONDONTWRITEBYTECODE'] = '1'
-    for v in ('OMP_NUM_THREADS', 'OPENBLAS_NUM_THREADS', 'MKL_NUM_THREADS'):
-        os.environ[v] = '1'
-    os.execv(sys.executable, [sys.executable] + sys.argv)
-HERE = os.path.dirname(os.path.abspath(__file__))
-sys.path.insert(0, HERE); sys.path.insert(0, '/repo')
-sys.dont_write_bytecode = True
-from lib import core
-u = importlib.import_module('harness.units.' + sys.argv[1]).UNIT
-rep = core.run_unit(u, sys.argv[2] if len(sys.argv) > 2 else 'quick')
-rep.pop('mirrors', None)
-rep['samples'] = rep.get('samples', [])[:2]
-print(json.dumps(rep, indent=1, default=str)[:6000])
-sys.exit(1 if rep['mismatches'] or rep['errors'] else 0)
+#!/usr/bin/env python3
+"""Run single correspondence units against /repo (or VERIF_REPO) and print a one-line summary each:  tools_run_unit.py [--tier t] unit ..."""
+import os, sys
+here = os.path.dirname(os.path.abspath(__file__))
+os.environ.setdefault('PYTHONHASHSEED', '0')
+os.environ.setdefault('MIR_EVAL_VERIF', '1')
+for k in ('OMP_NUM_THREADS', 'OPENBLAS_NUM_THREADS', 'MKL_NUM_THREADS'):
+    os.environ.setdefault(k, '1')
+sys.path.insert(0, here)
+sys.path.insert(0, os.environ.get('VERIF_REPO', '/repo'))
+from lib import runner
+tier = 'quick'
+args = sys.argv[1:]
+if args[:1] == ['--tier']:
+    tier, args = args[1], args[2:]
+for u in args:
+    r = runner.unit_report(u, tier)
+    print(u, 'cases', r.get('cases'), 'nontrivial', r.get('distinct_nontrivial'), 'mismatches', r.get('mismatches'), 'errors', r.get('errors'), 'fp', r.get('fingerprint_changed'))
+    for b in r.get('bad_cases', [])[:3]:
+        print('   bad:', str(b)[:600])
